@@ -40,6 +40,7 @@
 
 #include <algorithm>
 #include <cstdlib>
+#include <cstring>
 #include <functional>
 #include <iterator>
 #include <numeric> // std::accumulate
@@ -89,6 +90,7 @@ static int getMinFormatStringOutputLength(const std::vector<const Token*> &param
     bool handleNextParameter = false;
     std::string digits_string;
     bool i_d_x_f_found = false;
+    bool knownNonZero = false;
     int parameterLength = 0;
     nonneg int inputArgNr = formatStringArgNr;
     for (std::size_t i = 1; i + 1 < formatString.length(); ++i) {
@@ -118,15 +120,21 @@ static int getMinFormatStringOutputLength(const std::vector<const Token*> &param
             case 'o':
             case 'u':
             case 'p':
-            case 'n':
                 handleNextParameter = true;
                 parameterLength = 1; // TODO
+                break;
+            case 'n':
+                // writes nothing
+                handleNextParameter = true;
+                parameterLength = 0;
                 break;
             case 'd':
                 i_d_x_f_found = true;
                 parameterLength = 1;
-                if (inputArgNr < parameters.size() && parameters[inputArgNr]->hasKnownIntValue())
+                if (inputArgNr < parameters.size() && parameters[inputArgNr]->hasKnownIntValue()) {
                     parameterLength = MathLib::toString(parameters[inputArgNr]->getKnownIntValue()).length();
+                    knownNonZero = parameters[inputArgNr]->getKnownIntValue() != 0;
+                }
 
                 handleNextParameter = true;
                 break;
@@ -158,16 +166,20 @@ static int getMinFormatStringOutputLength(const std::vector<const Token*> &param
             if (digits_string.find('.') != std::string::npos) {
                 const std::string endStr = digits_string.substr(digits_string.find('.') + 1);
                 // NOLINTNEXTLINE(bugprone-unchecked-string-to-number-conversion) - intentional use
-                const int maxLen = std::max(std::abs(std::atoi(endStr.c_str())), 1);
+                const int precision = std::abs(std::atoi(endStr.c_str()));
 
                 if (formatString[i] == 's') {
                     // For strings, the length after the dot "%.2s" will limit
                     // the length of the string.
-                    parameterLength = std::min(parameterLength, maxLen);
+                    parameterLength = std::min(parameterLength, precision);
+                } else if (precision == 0 && !knownNonZero && std::strchr("dixXou", formatString[i])) {
+                    // "%.0d" writes no digits for the value 0
+                    tempDigits = std::abs(std::atoi(digits_string.c_str()));
+                    parameterLength = 0;
                 } else {
                     // For integers, the length after the dot "%.2d" can
                     // increase required length
-                    tempDigits = std::max(tempDigits, maxLen);
+                    tempDigits = std::max(tempDigits, precision);
                 }
             }
 
@@ -179,6 +191,7 @@ static int getMinFormatStringOutputLength(const std::vector<const Token*> &param
             parameterLength = 0;
             digits_string.clear();
             i_d_x_f_found = false;
+            knownNonZero = false;
             percentCharFound = false;
             handleNextParameter = false;
             ++inputArgNr;
